@@ -14,7 +14,7 @@ RULE = ("histories of 5-40 operations over 2 annotation registers: a[s,t]=l, a[s
         "update(other), rename_labels(copy=False), uri assignment, Annotation(), from_records / from_df, each write "
         "followed with probability 1/2 by one or two reads drawn from every read kind (itertracks, labels, "
         "label_timeline + its uri, label_support, label_duration, get_timeline + uri, chart, get_tracks, get_labels, "
-        "has_track, a[s,t], len, bool, segment/timeline containment); label and track universes with pairwise distinct "
+        "has_track, a[s,t], len, bool, segment/timeline containment); in 30% of the histories the track names are the labels themselves; label and track universes with pairwise distinct "
         "str() except the deliberate pair 0 / '0' among tracks; 8% malformed operations (empty segments, deletions of "
         "absent keys); regimes K0/K4/K1; non-trivial = a deletion, overwrite or rename happened between two reads")
 
@@ -22,6 +22,8 @@ RULE = ("histories of 5-40 operations over 2 annotation registers: a[s,t]=l, a[s
 def _history(rng, regime):
     labels = LABELS[: rng.randrange(2, 6)]
     tracks = rng.sample(TRACKS, rng.randrange(2, 6))
+    if rng.random() < 0.3:
+        tracks = list(labels)          # track names drawn from the label universe: a label may equal a track name
     pool = gen.rand_timeline(rng, regime, maxn=6, span=12, allow_empty=0.12)
     while len(pool) < 3:
         pool.append(gen.rand_segment(rng, regime, span=12))
